@@ -161,18 +161,18 @@ Definition distinct_prefixes (t : table) : bool :=
 (** ------------------------------------------------------------------
     IPForwarder.Run, one packet.  [r_dec] is what gopacket makes of the bytes when
     decoded as the version nibble says: the network layer (or failure), and
-    whether every layer above it decodes too (packet.ErrorLayer() == nil). *)
+    whether every layer above it decodes too.  Only the IP header has to decode
+    (checkNetworkHeader); the second component does not influence the decision. *)
 Inductive ipdec := DBad | D4 (p : PktCls.pkt) (payload_ok : bool) | D6 (dst : N) (payload_ok : bool).
 Record raw := Raw { r_len : N; r_b0 : N; r_dec : ipdec }.
 
 Definition forward (t : table) (r : raw) : option N :=
   if r_len r =? 0 then None
   else match r_b0 r / 16, r_dec r with
-       | 4, D4 p ok => if negb ok then None                      (* ErrorLayer: counted invalid *)
-                       else if PktCls.p_frag p then None         (* fragments are ignored *)
-                       else route_pkt t (V4 p)
-       | 6, D6 d ok => if negb ok then None else route_pkt t (V6 d)
-       | _, _ => None
+       | 4, D4 p _ => if PktCls.p_frag p then None         (* fragments are ignored *)
+                      else route_pkt t (V4 p)
+       | 6, D6 d _ => route_pkt t (V6 d)
+       | _, _ => None                                      (* other version, header does not decode *)
        end.
 
 (** what the property asks of the forwarder: a packet with a well-formed IP header
@@ -184,15 +184,6 @@ Definition spec_forward (t : table) (r : raw) : option N :=
        | 6, D6 d _ => spec_route_pkt t (V6 d)
        | _, _ => None
        end.
-
-(** the known finding: the payload of a well-formed, unfragmented IP packet does not decode *)
-Definition payload_undecodable (r : raw) : bool :=
-  negb (r_len r =? 0) &&
-  match r_b0 r / 16, r_dec r with
-  | 4, D4 p ok => negb ok && negb (PktCls.p_frag p)
-  | 6, D6 _ ok => negb ok
-  | _, _ => false
-  end.
 
 (** ------------------------------------------------------------------
     Routing policy. *)
@@ -304,7 +295,7 @@ Definition fields (s : list N) : list (list N) := fields_aux s [].
 
 (** bufio.ScanLines *)
 Definition drop_cr (l : list N) : list N :=
-  match rev l with 13 :: r => rev r | _ => l end.
+  match rev l with c :: r => if c =? 13 then rev r else l | [] => l end.
 Fixpoint lines_aux (s cur : list N) : list (list N) :=
   match s with
   | [] => match cur with [] => [] | _ => [drop_cr (rev cur)] end
@@ -327,9 +318,10 @@ Fixpoint split_all (c : N) (s cur : list N) : list (list N) :=
   end.
 
 Fixpoint drop_spaces (l : list N) : list N :=
-  match l with 32 :: r => drop_spaces r | _ => l end.
+  match l with c :: r => if c =? 32 then drop_spaces r else l | [] => [] end.
 Definition trim_right (l : list N) : list N := rev (drop_spaces (rev l)).
-Definition trim_prefix1 (l : list N) : list N := match l with 32 :: r => r | _ => l end.
+Definition trim_prefix1 (l : list N) : list N :=
+  match l with c :: r => if c =? 32 then r else l | [] => [] end.
 
 Definition res_bind {A B} (x : res A) (f : A -> res B) : res B :=
   match x with Ok a => f a | Err => Err | Miss => Miss end.
@@ -342,7 +334,7 @@ Definition parse_action (w : list N) : res action :=
   else Err.
 
 Definition strip_bang (w : list N) : bool * list N :=
-  match w with 33 :: r => (true, r) | _ => (false, w) end.
+  match w with c :: r => if c =? 33 then (true, r) else (false, w) | [] => (false, w) end.
 
 Definition parse_iam (tb : atoms) (w : list N) : res iam :=
   let '(neg, w') := strip_bang w in
@@ -435,6 +427,30 @@ Definition layout_row (rows : list (list (list N) * list N)) (row : list (list N
 Definition marshal (tb : atoms) (p : policy) : option (list N) :=
   opt_bind (all_cells tb (p_rules p)) (fun rows => Some (concat (List.map (layout_row rows) rows))).
 
+(** what MarshalText relies on: the printed atoms are fields (no white space, '#',
+    ',' and no leading '!') and the library parsers read them back *)
+Definition fieldlike (s : list N) : bool :=
+  match s with
+  | [] => false
+  | c :: _ => negb (c =? 33) &&
+              forallb (fun c => negb (is_space c) && negb (c =? 35) && negb (c =? 44)) s
+  end.
+Definition atom_same (a b : atom) : bool :=
+  option_eqb ia_eqb (a_ia a) (a_ia b) && option_eqb pfx_eqb (a_pfx a) (a_pfx b)
+  && option_eqb ipaddr_eqb (a_ip a) (a_ip b).
+Definition tb_ok (tb : atoms) : bool :=
+  forallb (fun a => if a_canon a
+                    then fieldlike (a_text a) &&
+                         match lookup tb (a_text a) with Some b => atom_same a b | None => false end
+                    else true) tb.
+
+(** policies that UnmarshalText can produce *)
+Definition image_rule (r : rule) : bool :=
+  negb (action_eqb (r_action r) AUnknown)
+  && match r_nexthop r with Some _ => action_eqb (r_action r) AAdvertise | None => true end
+  && match n_allowed (r_net r) with [] => false | _ => true end
+  && forallb (fun c => negb (c =? 10)) (r_comment r).
+
 (** ------------------------------------------------------------------
     Correspondence cases. *)
 Definition opt_n_eqb := option_eqb N.eqb.
@@ -508,7 +524,8 @@ Definition check (c : case) : N :=
     Check.verdict (res_rules_eqb (unmarshal tb text) impl) true
   | CMar tb p impl re =>
     Check.verdict
-      (match marshal tb p with
+      (tb_ok tb && forallb image_rule (p_rules p) &&
+       match marshal tb p with
        | Some s => bytes_eqb s impl && res_rules_eqb (unmarshal tb s) re
        | None => false end)
       (roundtrip_oracle p re)
